@@ -2,6 +2,7 @@
    Property theorems only; the model is model/Index.v, the proofs are in proofs/IndexProofs.v. *)
 From Coq Require Import Sorting.Sorted.
 From KV Require Import Bytes GenConsts Chunk Record Engine Index AMapLemmas IndexProofs.
+From KV Require EngineInv.
 Open Scope N_scope.
 
 (* For every index content [ix] (the ordered map of the engine model), EVERY assignment of keys to
@@ -50,6 +51,17 @@ Proof.
   induction (d_index d) as [|x l IH]; [reflexivity|]. cbn [filter has_prefix]. f_equal. exact IH.
 Qed.
 Print Assumptions C10_listkeys_is_the_forward_snapshot.
+
+(* Fold whose callback stops it after n items delivered exactly the first n pairs of the mapping, in ascending key
+   order - for every database state that satisfies the engine invariant and every n (beyond the number of keys: all). *)
+Theorem C10_fold_stopped_by_its_callback_visits_a_prefix :
+  forall d m n, EngineInv.Inv d -> EngineInv.R d m ->
+  exists d' evs, db_fold_n d n = (d', inl (firstn n m), evs) /\ EngineInv.Inv d' /\ EngineInv.R d' m.
+Proof.
+  intros d m n HI HR. destruct (EngineInv.db_fold_n_spec d m n HI HR) as (d' & evs & A & B & C & _).
+  exists d', evs. auto.
+Qed.
+Print Assumptions C10_fold_stopped_by_its_callback_visits_a_prefix.
 
 (* Non-vacuity: seven keys in four shards, a descending iterator with prefix "a", a legal sequence with
    two Seeks in a row, a Seek after Next and a Rewind after exhaustion. *)
